@@ -123,7 +123,64 @@ func registryInvariant(p *load.Prog, reg map[*ssa.Global]*types.Named) (ok bool,
 			return false, fmt.Sprintf("newSimpleNode is called with a computed tag in %s: a plain node could carry a registered tag", load.FuncName(fn))
 		}
 	}
+	// the registry is consulted with Tag.Is: it must be exact equality of the tag strings, otherwise a node whose
+	// tag only resembles a registered tag (other case, other spelling) is found by NodesWithTag(T) without being of T's kind
+	is := p.Method(load.PkgRoot, "Tag", "Is")
+	if is == nil || len(is.Blocks) == 0 {
+		return false, "Tag.Is not found"
+	}
+	exact := false
+	if len(is.Blocks) == 1 {
+		if ret, isRet := is.Blocks[0].Instrs[len(is.Blocks[0].Instrs)-1].(*ssa.Return); isRet && len(ret.Results) == 1 {
+			if bo, isBo := ret.Results[0].(*ssa.BinOp); isBo && bo.Op == token.EQL {
+				px, fxi := fieldOfParam(bo.X)
+				py, fyi := fieldOfParam(bo.Y)
+				if px != nil && py != nil && px != py && fxi == fyi {
+					if b, isB := bo.X.Type().Underlying().(*types.Basic); isB && b.Kind() == types.String {
+						exact = true
+					}
+				}
+			}
+		}
+	}
+	if !exact {
+		return false, "Tag.Is is no longer exact equality of the two tag strings: NodesWithTag(T) can return nodes that are not of the kind registered for T"
+	}
 	return true, ""
+}
+
+// fieldOfParam: v is field #i of a struct-typed parameter (directly, or through the parameter's local copy).
+func fieldOfParam(v ssa.Value) (*ssa.Parameter, int) {
+	switch x := v.(type) {
+	case *ssa.Field:
+		if p, ok := x.X.(*ssa.Parameter); ok {
+			return p, x.Field
+		}
+	case *ssa.UnOp:
+		if x.Op != token.MUL {
+			return nil, 0
+		}
+		fa, ok := x.X.(*ssa.FieldAddr)
+		if !ok {
+			return nil, 0
+		}
+		al, ok := fa.X.(*ssa.Alloc)
+		if !ok {
+			return nil, 0
+		}
+		var prm *ssa.Parameter
+		n := 0
+		for _, ref := range *al.Referrers() {
+			if st, ok := ref.(*ssa.Store); ok && st.Addr == ssa.Value(al) {
+				n++
+				prm, _ = st.Val.(*ssa.Parameter)
+			}
+		}
+		if n == 1 && prm != nil {
+			return prm, fa.Field
+		}
+	}
+	return nil, 0
 }
 
 type e1ctx struct {
@@ -869,6 +926,11 @@ func runE1(p *load.Prog, r *oblig.Run, rulePrefix string, entries []*ssa.Functio
 		names = append(names, load.FuncName(e))
 	}
 	r.Extra["entry_points"] = names
+	hangFloor := 100
+	if rulePrefix == "R03" {
+		hangFloor = 2 // the decoder's reachable set is small
+	}
+	hangObligations(p, r, rulePrefix+".h", g, entries, hangFloor)
 	rule := rulePrefix + ".a"
 	r.Rule(rule, "every may-panic construct (explicit panic, single-result type assertion, bounds check the compiler could not prove, reflect/regexp precondition) reachable from the entry points outside any recover is discharged by a rule or a reviewed table entry", floor)
 	byClass := map[string]int{}
